@@ -140,6 +140,7 @@ def run(ctx, n_random=None, per_field=None):
         others.append(('type-id-%d' % tid, format(tid, '06b') + b[6:]))
     check_batch(ctx, ('other', 0, 168, {}), others, use_oracle=False)
     shorter_forms(ctx, ctx.budget(6, 60))
+    same_characters(ctx, ctx.budget(4, 40))
 
 
 def shorter_forms(ctx, n_each):
@@ -187,6 +188,46 @@ def shorter_forms(ctx, n_each):
                     break
 
 
+def same_characters(ctx, n_each):
+    """Two DIFFERENT payloads whose armored characters are the same and whose fill-bit counts differ (a shorter form that ends
+    on a byte boundary, and the same bits followed by the zero bits that pad it to a six-bit boundary), decoded one after the
+    other in both orders, and the first one again: the trailing binary field must be exactly the received bits, left-aligned
+    into bytes -- whatever was decoded before (a result remembered under the payload characters alone shows only here)."""
+    rng, rep = ctx.rng, ctx.rep
+    for variant in cc.VARIANTS:
+        base = cc.make_payload(rng, variant)
+        spec = cc.parse_spec(ctx.model.ask(f'spec {base}')) if ctx.model else None
+        if spec is None:
+            continue
+        kinds = dict(spec['fields'])
+        name, off, w = spec['layout'][-1]
+        if kinds[name][0] != 'y' or w < 48:
+            continue
+        for k in range(n_each):
+            length = off + 8 * rng.randrange(1, w // 8)
+            fill = -length % 6
+            if not fill or length + fill > off + w:
+                continue
+            short = cc.make_payload(rng, variant, length)
+            long_ = short + '0' * fill
+            order = [short, long_, short] if k % 2 == 0 else [long_, short, long_]
+            for step, bits in enumerate(order):
+                rep.case(('same-characters', bits, step), kind='same-characters:' + ('short' if bits is short else 'long'))
+                got = cc.impl_decode(bits)
+                if got[0] != 'Ok':
+                    continue
+                tail = bits[off:]
+                want = int(tail.ljust(-(-len(tail) // 8) * 8, '0'), 2).to_bytes(-(-len(tail) // 8), 'big')
+                val = dict(got[2]).get(name)
+                if val != want:
+                    rep.violation({'entry': 'decode', 'class': got[1], 'component': name, 'kind': 'wrong-value/history'},
+                                  f'{got[1]}.{name} of a {len(bits)}-bit payload is {cc.show(val)}, the received bits are '
+                                  f'{cc.show(want)} (decoded {"after" if step else "before"} a payload with the same armored '
+                                  f'characters and {"no" if bits is short else str(fill)} fill bits)',
+                                  {'bits': bits, 'sequence': order, 'step': step, 'field': name, 'offset': off})
+                    break
+
+
 def hunt(ctx):
     run(ctx, n_random=ctx.budget(150, 600), per_field=64)
 
@@ -195,6 +236,16 @@ def replay(ctx, data):
     import vlib
     m = ctx.model or vlib.FastModel()
     bits = data['bits']
+    if data.get('sequence'):
+        off, name = data['offset'], data['field']
+        for step, b in enumerate(data['sequence'][:data['step'] + 1]):      # the same decode() calls, in the recorded order
+            got = cc.impl_decode(b)
+        if got[0] != 'Ok':
+            return None
+        tail = bits[off:]
+        want = int(tail.ljust(-(-len(tail) // 8) * 8, '0'), 2).to_bytes(-(-len(tail) // 8), 'big')
+        val = dict(got[2]).get(name)
+        return None if val == want else f'{name} = {cc.show(val)}, the received bits are {cc.show(want)} (after the preceding decode() calls)'
     if data.get('reversed'):
         import pyais
         a = cc.impl_decode(bits)
